@@ -124,11 +124,30 @@ def sweep_cases(tier):
                         spec.append(E(b"c%d" % r, "file", content=content_pattern("tl%d" % r, 1400 + r)))
                     yield dict(kind="sweep-fragment-in-flight", names=("small=%d" % nsmall, "blocks=%d" % nblk, "zeros=%d" % ztail, kind), spec=spec,
                                cfg=dict(comp="gzip", bs=B, j=1) if nsmall == 3 else dict(comp="lz4", bs=B, j=4), mode="packfile")
+                    if nsmall == 3:
+                        # the same files without tail packing: the partial last block is an ordinary (here: sparse) data block that carries the last-block mark
+                        yield dict(kind="sweep-zero-tail-no-tail-packing", names=("blocks=%d" % nblk, "zeros=%d" % ztail, kind), spec=spec[nsmall:],
+                                   cfg=dict(comp="gzip", bs=B, T=1), mode="packfile")
     # (c) distinct owner ids
-    for n in ([1, 2, 255, 256, 257] if quick else [1, 2, 255, 256, 257, 2047, 2048, 2049, 65534, 65535, 65536, 65537]):
-        # n distinct ids in total (0 is always there for the root)
-        spec = [E(b"o%05d" % i, "fifo", 0o600, i, i) for i in range(1, n)]
-        yield dict(kind="sweep-ids", names=("ids=%d" % n,), spec=spec, cfg=gz, mode="packfile")
+    for n in ([1, 2, 255, 256, 257, 65535, 65536] if quick else [1, 2, 255, 256, 257, 2047, 2048, 2049, 65534, 65535, 65536, 65537]):
+        # n distinct ids in total (0 is always there for the root); the id that overflows the table is first seen as uid+gid, as a uid only, as a gid only
+        hows = ("both",) if n < 60000 else ("both", "uid", "gid", "gid-last")
+        if quick and n == 65535:
+            hows = ("both",)
+        if quick and n == 65536:
+            hows = ("both", "gid-last")
+        for how in hows:
+            if how == "both":
+                spec = [E(b"o%05d" % i, "fifo", 0o600, i, i) for i in range(1, n)]
+            elif how == "uid":
+                spec = [E(b"o%05d" % i, "fifo", 0o600, i, 0) for i in range(1, n)]
+            elif how == "gid":
+                spec = [E(b"o%05d" % i, "fifo", 0o600, 0, i) for i in range(1, n)]
+            else:
+                # all but the last id arrive as uids, the last one as the gid of an entry whose uid is already known
+                spec = [E(b"o%05d" % i, "fifo", 0o600, i, 0) for i in range(1, n - 1)] + [E(b"zzz_last", "fifo", 0o640, 1, 777777)]
+                spec = spec if n > 2 else [E(b"zzz_last", "fifo", 0o640, 0, 777777)]
+            yield dict(kind="sweep-ids", names=("ids=%d" % n, how), spec=spec, cfg=gz, mode="packfile")
     # (d) distinct xattr sets
     for n in ([1, 2, 3, 4] if quick else [1, 2, 3, 4, 510, 511, 512, 513, 514, 1023, 1024, 1025]):
         spec = [E(b"x%05d" % i, "fifo", 0o600, xattrs={b"user.n": b"%d" % i, b"user.shared": b"S" * 40}) for i in range(n)]
